@@ -10,6 +10,7 @@ inductive Err where
   | assert       -- "must provide a positive, non-zero integer"
   | decode       -- UnicodeDecodeError and friends
   | other        -- any other exception raised while decoding (KeyError, IndexError, AttributeError …)
+  | unsupported  -- not an error of the code: the input leaves the modelled subset (floats in user JSON, % formats …)
 deriving Repr, DecidableEq
 
 abbrev Rd := StateT Bytes (Except Err)
